@@ -163,6 +163,29 @@ class InstanceLayer:
         return '<layer %s.%s>' % (self.__module__, self.__name__)
 
 
+def _shared_method(kind):
+    def method(self):
+        return self._vw_hooks[kind]()
+    method.__name__ = kind
+    return method
+
+
+# one function per hook name, shared by every layer of kind 'method' (layers that are instances of one class, as in
+# plone.testing: `getattr(layer, 'testSetUp').__func__` is the same object for all of them)
+_SHARED = {k: _shared_method(k) for k in ('setUp', 'tearDown', 'testSetUp', 'testTearDown')}
+_METHOD_CLASSES = {}
+
+
+def _method_layer(name, module, bases, hooks):
+    kinds = tuple(sorted(hooks))
+    cls = _METHOD_CLASSES.get(kinds)
+    if cls is None:
+        cls = _METHOD_CLASSES[kinds] = type('MethodLayer', (InstanceLayer,), {k: _SHARED[k] for k in kinds})
+    obj = cls(name, module, bases)
+    obj._vw_hooks = dict(hooks)
+    return obj
+
+
 class FalsyLayer(InstanceLayer):
     """An instance layer that is falsy (a resource container that is empty at collection time)."""
     def __len__(self):
@@ -215,6 +238,10 @@ def _meddle(actions):
             warnings.resetwarnings()
         elif a == 'chdir':
             os.chdir('/')
+        elif a == 'chdir_sub':
+            # a test that works in a scratch directory of its own and does not go back
+            os.makedirs('elsewhere_cwd', exist_ok=True)
+            os.chdir('elsewhere_cwd')
         elif a == 'settrace_none':
             sys.settrace(None)
         elif a == 'setprofile_none':
@@ -301,6 +328,8 @@ def build(modname):
                 obj = type(L['name'], tuple(bases) or (object,), cd)
             except TypeError:
                 obj = None
+        if obj is None and L.get('kind') == 'method':
+            obj = _method_layer(L['name'], modname, bases, d)
         if obj is None:
             obj = (FalsyLayer if L.get('kind') == 'falsy' else InstanceLayer)(L['name'], modname, bases)
             for k, v in d.items():
